@@ -454,6 +454,55 @@ theorem sysValidate_ok {u : List Site} {e : Env} {c : SysCtx} (h : sysValidate u
             | none => simp [hs] at this
             | some _ => rfl
 
+/-- What validation establishes about the candidates of an admitted parameter vote: each is a string that
+`SetString` parses and `validateById` accepts for the issue the context names. -/
+theorem sysValidate_dao_valid {u : List Site} {e : Env} {c : SysCtx} (h : sysValidate u e = .ok c) (hp : c.proposal = true) :
+    ∀ v ∈ c.ci.args.drop 1, ∃ s n, v = .str s ∧ parseBigInt s = some n ∧ validateById e c.issue n = true := by
+  unfold sysValidate at h
+  split at h
+  · cases h
+  · rename_i ci hci
+    split at h
+    · obtain ⟨_, _, h⟩ := bind_ok h
+      obtain ⟨_, _, h⟩ := bind_ok h
+      obtain ⟨_, _, h⟩ := bind_ok h
+      have := pure_ok h; subst this; cases hp
+    · obtain ⟨_, _, h⟩ := bind_ok h
+      have := pure_ok h; subst this; cases hp
+    · obtain ⟨_, _, h⟩ := bind_ok h
+      obtain ⟨_, _, h⟩ := bind_ok h
+      obtain ⟨_, _, h⟩ := bind_ok h
+      obtain ⟨_, _, h⟩ := bind_ok h
+      have := pure_ok h; subst this; cases hp
+    · obtain ⟨_, _, h⟩ := bind_ok h
+      obtain ⟨a0, _, h⟩ := bind_ok h
+      split at h
+      · cases h
+      · split at h
+        · cases h
+        · rename_i issue _
+          obtain ⟨candis, hc, h⟩ := bind_ok h
+          obtain ⟨_, _, h⟩ := bind_ok h
+          obtain ⟨_, _, h⟩ := bind_ok h
+          obtain ⟨_, hall, h⟩ := bind_ok h
+          obtain ⟨_, _, h⟩ := bind_ok h
+          have := pure_ok h; subst this
+          obtain ⟨_, hcand⟩ := sliceFrom_ok hc
+          have hall := rejectIf_ok hall
+          simp only [Bool.not_eq_false', List.all_eq_true] at hall
+          intro v hv
+          have hv' : v ∈ candis := by rw [hcand]; exact hv
+          have := hall v hv'
+          cases hs : str? v with
+          | none => simp [hs] at this
+          | some s =>
+            simp only [hs] at this
+            cases hn : parseBigInt s with
+            | none => simp [hn] at this
+            | some n =>
+              simp only [hn] at this
+              exact ⟨s, n, str?_some hs, hn, this⟩
+
 /-! #### parameter votes: tally sort (`VoteList.Less`), threshold, Sync -/
 
 theorem contains_mem {u : List Site} {s : Site} (h : u.contains s = true) : s ∈ u := by
